@@ -20,7 +20,8 @@ open EinoV.Gen
 
 /-- The facts regenerated from the source, as the model's parameter. -/
 def gen : Facts :=
-  { typeCmpIdentity := FactsC16.typeCmpIdentity, strip := FactsC16.strip,
+  { typeCmpIdentity := FactsC16.typeCmpIdentity, typeCmpImplements := FactsC16.typeCmpImplements,
+    strip := FactsC16.strip,
     passSubPathIsError := FactsC16.passSubPathIsError, nestedCopies := FactsC16.nestedCopies,
     designateCopies := FactsC16.designateCopies }
 
@@ -37,6 +38,7 @@ theorem facts_match : gen = Expected.C16.facts := by decide
 theorem shape_ok : ∀ s ∈ FactsC16.shape, s.2 = true := by decide
 
 theorem gen_T : gen.typeCmpIdentity = true := by decide
+theorem gen_I : gen.typeCmpImplements = false := by decide
 theorem gen_S : gen.strip = 1 := by decide
 theorem gen_C : gen.nestedCopies = true := by decide
 
@@ -55,7 +57,7 @@ theorem run_entries {g : Nodes} (hwf : g.wf = true) {opts : List Opt} {out : Lis
       cases hrun
       rcases List.mem_cons.mp he with rfl | he
       · exact Or.inl ⟨rfl, rfl, rfl, rfl⟩
-      · exact Or.inr (runNodes_sound gen_T gen_S g g [] _ opts log es hwf hlog (fun _ h => h)
+      · exact Or.inr (runNodes_sound gen_T gen_I gen_S g g [] _ opts log es hwf hlog (fun _ h => h)
           (fun _ h => h) hes e he)
 
 /-- **option_reaches_iff.** In a run that is accepted, the component node at path `p` (any
@@ -142,16 +144,48 @@ theorem bad_paths (g : Nodes) (o : Opt) :
     simp [hP]
   · intro q k' ty hq hv hty
     rw [pathErr_at o q g _ hq]
-    simp [hv, hty, gen_T]
+    simp [hv, hty, gen_T, tyMatch_id gen_I]
   · intro q k' ty hq h
     rw [pathErr_at o q g _ hq]
-    rcases h with h | h <;> simp [h]
+    rcases h with h | h <;> simp [h, tyMatch_id gen_I]
   · intro q n hq hn
     rw [pathErr_at o q g _ hq]
     cases n with
     | comp k' ty => exact absurd rfl (hn k' ty)
     | pass k' => rfl
     | graph k' ch => rfl
+
+/-- **interface_typed_node_gets_nothing.**  The type of an Option is the dynamic type of its
+    values – never an interface type.  A lambda whose declared option type is an interface
+    (`opts ...any`, `opts ...fmt.Stringer`) is matched by *identity* of the types like every
+    other node, so no option of a concrete type reaches it, undesignated or designated, at any
+    depth: its body is always called without options. -/
+theorem interface_typed_node_gets_nothing (g : Nodes) (hwf : g.wf = true) (opts : List Opt)
+    (out : List Entry) (hrun : run gen g opts = .ok out) (p : Path) (k : Key) (ty : Nat)
+    (hnode : nodeAt g p = some (.comp k ty)) (hi : isIfaceTy ty = true)
+    (hconc : ∀ o ∈ opts, isIfaceTy o.ty = false) (e : Entry) (he : e ∈ out) (hp : e.path = p) :
+    e.vals = [] := by
+  cases hv : e.vals with
+  | nil => rfl
+  | cons v vs =>
+    exfalso
+    obtain ⟨o, ho, _, hty⟩ := no_other_type g hwf opts out hrun p k ty hnode e he hp v (by simp [hv])
+    have := hconc o ho
+    rw [hty, hi] at this
+    cases this
+
+/-- **designating_interface_typed_node_is_error.**  An option that carries values, designated
+    to a node whose option type is an interface type, is an option of the wrong type: the call
+    is rejected (for every concrete option type, implementing the interface or not). -/
+theorem designating_interface_typed_node_is_error (g : Nodes) (hwf : g.wf = true) (opts : List Opt)
+    (o : Opt) (ho : o ∈ opts) (hv : o.vals ≠ []) (hc : isIfaceTy o.ty = false)
+    (q : Path) (hq : q ∈ o.paths) (k : Key) (ty : Nat) (hnode : nodeAt g q = some (.comp k ty))
+    (hi : isIfaceTy ty = true) : ∃ e, run gen g opts = .error e := by
+  refine (designation_errors_iff g hwf opts).mpr ⟨o, ho, q, hq, ?_⟩
+  have hne : ty ≠ o.ty := by
+    intro h; rw [h, hc] at hi; cases hi
+  rw [(bad_paths g o).2.2.2.2.2.1 q k ty hnode hv hne]
+  rfl
 
 /-- **callbacks_reach_iff.** In a run that is accepted, a callback handler is active for a
     node (component or graph node at any depth, or the outermost graph, `path = []`) iff it
@@ -278,6 +312,40 @@ theorem wrong_type_reaches_without_test :
     run { Expected.C16.facts with typeCmpIdentity := false } (.cons (.comp "b" 2) .nil)
       [{ ty := 1, vals := [1], handlers := [], paths := [] }]
       = .ok [⟨[], true, [], []⟩, ⟨["b"], false, [1], []⟩] := by decide
+
+/-- a (`opts ...any`) ⟶ m (chat model: option type 5) ⟶ sub[ i (`opts ...tyIface`) ⟶ t (option type 9) ] -/
+def exIface : Nodes :=
+  .cons (.comp "a" tyAny) <| .cons (.comp "m" 5) <|
+  .cons (.graph "sub" (.cons (.comp "i" tyIface) <| .cons (.comp "t" tyImpl) .nil)) .nil
+
+/-- identity of types: the interface-typed lambdas are called without options, whatever is
+    sent; designating one of them is an error -/
+example : run Expected.C16.facts exIface
+      [{ ty := 5, vals := [1, 2], handlers := [], paths := [] },
+       { ty := tyImpl, vals := [3], handlers := [], paths := [] }]
+    = .ok [⟨[], true, [], []⟩, ⟨["a"], false, [], []⟩, ⟨["m"], false, [1, 2], []⟩,
+           ⟨["sub"], true, [], []⟩, ⟨["sub", "i"], false, [], []⟩, ⟨["sub", "t"], false, [3], []⟩] ∧
+    run Expected.C16.facts exIface [{ ty := 5, vals := [1], handlers := [], paths := [["a"]] }]
+      = .error ([], .wrongType) ∧
+    run Expected.C16.facts exIface [{ ty := tyImpl, vals := [1], handlers := [], paths := [["sub", "i"]] }]
+      = .error (["sub"], .wrongType) := by decide
+
+/-- With the test relaxed to "identical, or the node's option type is an interface the value
+    implements", a chat-model option also reaches the `any`-typed lambda, an option of the
+    implementing type also reaches the interface-typed lambda in the nested graph, and the
+    wrong-type designation is accepted: `interface_typed_node_gets_nothing` and
+    `designating_interface_typed_node_is_error` are false for that value of the fact. -/
+theorem options_leak_into_interface_typed_nodes_when_test_relaxed :
+    let F := { Expected.C16.facts with typeCmpImplements := true }
+    run F exIface
+      [{ ty := 5, vals := [1, 2], handlers := [], paths := [] },
+       { ty := tyImpl, vals := [3], handlers := [], paths := [] }]
+    = .ok [⟨[], true, [], []⟩, ⟨["a"], false, [1, 2, 3], []⟩, ⟨["m"], false, [1, 2], []⟩,
+           ⟨["sub"], true, [], []⟩, ⟨["sub", "i"], false, [3], []⟩, ⟨["sub", "t"], false, [3], []⟩] ∧
+    run F exIface [{ ty := 5, vals := [1], handlers := [], paths := [["a"]] }]
+      = .ok [⟨[], true, [], []⟩, ⟨["a"], false, [1], []⟩, ⟨["m"], false, [], []⟩,
+             ⟨["sub"], true, [], []⟩, ⟨["sub", "i"], false, [], []⟩, ⟨["sub", "t"], false, [], []⟩] := by
+  decide
 
 /-- Stripping two keys instead of one sends the option to the wrong level. -/
 theorem strip_two_breaks :
